@@ -89,7 +89,7 @@ def _run(args):
         obj = Sv.RandomizedSketchProjectPseudoinverse(block_size=cfg["block"], max_iter=cfg["max_iter"], tol=tol, seed=cfg.get("seed"), **({} if cfg.get("test") == "default" else {"test_sketch_size": cfg.get("test", 4)}))
         call = obj.compute_row_variant
     elif kind == "hybrid":
-        obj = Sv.HybridRSPNewtonSchulz(r=cfg["block"], p=cfg["p"], T=cfg["T"], tol=tol, max_iter=cfg["max_iter"], column_solver=cfg["solver"])
+        obj = Sv.HybridRSPNewtonSchulz(r=cfg["block"], p=cfg["p"], T=cfg["T"], tol=tol, max_iter=cfg["max_iter"], column_solver=cfg["solver"], seed=cfg.get("seed"))
         call = obj.compute
     else:
         pr = cfg.get("prec", 0)
@@ -252,10 +252,15 @@ def run(ctx, replay=None):
         cfgs += [("hybrid", {"block": 2, "p": 6, "T": 2, "solver": "qr", "max_iter": 120}), ("hybrid", {"block": 2, "p": 7, "T": 1, "solver": "qr", "max_iter": 120}),
                  ("hybrid", {"block": 3, "p": 2, "T": 5, "solver": "spd", "max_iter": 150}), ("hybrid", {"block": 2, "p": 8, "T": 2, "solver": "qr", "max_iter": 100}),
                  ("cgne", {"max_iter": 500, "prec": 2, "pseed": 3}), ("rsp_col", {"block": 3, "solver": "spd", "max_iter": 300})]
+    # the hybrid's own seed= option, with the update sketch as wide as its monitoring sketch (min(6, n) columns) on
+    # matrices with more columns than that, and narrower
+    wide_cfgs = [("hybrid", {"block": 6, "p": 4, "T": 3, "solver": "spd", "max_iter": 120, "seed": 3, "shapes": [(10, 8), (14, 10)]}),
+                 ("hybrid", {"block": 6, "p": 4, "T": 3, "solver": "qr", "max_iter": 120, "seed": 4, "shapes": [(10, 8)]}),
+                 ("hybrid", {"block": 2, "p": 4, "T": 3, "solver": "spd", "max_iter": 120, "seed": 5}), ("hybrid", {"block": 3, "p": 3, "T": 2, "solver": "qr", "max_iter": 120, "seed": 6})]
     jobs = []
     tid = 0
-    for kind, cfg in cfgs:
-        for sh in shapes_col:
+    for kind, cfg in cfgs + wide_cfgs:
+        for sh in cfg.get("shapes", shapes_col):
             for cond in conds:
                 for tol in tols:
                     for sd in seeds:
